@@ -452,7 +452,7 @@ namespace occa {
       buffer *buf = new serial::buffer(this, bytes, props);
 
       if (src && props.get("use_host_pointer", false)) {
-        buf->wrapMemory(src, bytes);
+        buf->useHostPointer(src, bytes);
       } else {
         buf->malloc(bytes);
       }
